@@ -124,6 +124,10 @@ def c09_jobs(ctx):
         # integer-coded tasks made of ONE multi-variable (the search-space description must not be shared with, and edited by, the run)
         for vs in ([("binary", 4)], [("discmulti", [3, 4, 2])]) if (not ctx.quick or r.random() < 0.5) else ([r.choice([("binary", 4), ("perm", 5)])],):
             jobs.append({"opt": nm, "cfg": {"max_cycles": 3, "fitness_error": None}, "task": {"vars": list(vs), "obj": "abs", "minmax": "min", "seed": r.randint(0, 10**6)}})
+        # several variables, a multi-variable first (its own bound lists must not be extended / edited by flattening them)
+        if not ctx.quick or r.random() < 0.5:
+            jobs.append({"opt": nm, "cfg": {"max_cycles": 2, "fitness_error": None}, "task": {"vars": [("contmulti", ([-2.0, -1.0, 0.0], [2.0, 1.0, 3.0])), ("cont", (5.0, 6.0)), ("contmulti", ([0.0], [1.0]))],
+                                                                                  "obj": "sphere", "minmax": r.choice(["min", "max"]), "seed": r.randint(0, 10**6)}})
         # list-valued parameters written the other way round (valid unless a validator says otherwise): in-place sorting / editing shows
         lists = {k: list(reversed(v)) for k, v in search.fixture_scale(nm).items() if isinstance(v, list) and len(v) > 1 and v != list(reversed(v))}
         if lists:
@@ -241,6 +245,10 @@ def c18_jobs(ctx):
             first = {**perturbed(r, search.fixture_scale(nm)), "max_cycles": 2, "fitness_error": None}
             t2 = search.cont_task(obj="sphere", seed=r.randint(0, 10**6))
             cfg2 = {"max_cycles": r.choice([3, 5]), "fitness_error": None}
+            # the optional stopping options differ between the two configurations, in either direction (present -> absent, absent -> present, other values)
+            es = [None, {"patience": 1, "min_delta": float("inf")}, {"patience": 2, "min_delta": 1e-12}]
+            first["early_stopping"] = r.choice(es); cfg2["early_stopping"] = r.choice([e for e in es if e != first["early_stopping"]])
+            first["fitness_error"] = r.choice([None, 0.5]); cfg2["max_cycles"] = r.choice([4, 6])
             jobs.append(({"opt": nm, "cfg": cfg2, "task": t2, "first_cfg": first, "sequence": [{"task": search.cont_task(obj="rastrigin", seed=r.randint(0, 10**6))}]},
                          {"opt": nm, "cfg": cfg2, "task": t2}))
     return jobs
